@@ -404,6 +404,119 @@ def run(prog: Program, chk: Check):
             if isinstance(n, ast.Assign) and any(isinstance(t, ast.Subscript) and (path_of(t.value) or "").split(".")[-1] in ID_TABLES for t in n.targets):
                 I.bad(fkey(f, n), where(f, n), f"id registry written outside the Parser handlers in {f.qual}")
 
+    # ---- B the range tests refuse exactly the ids outside the permitted ranges -------------------------------------------
+    # The permitted ranges are RTMA's own (core definitions, the error texts of the three handlers):
+    #   message / signal / reserved id: 0 .. MAX_MESSAGE_TYPES;  host id: 1 .. 32767;  module id: 10 .. 99 or >= 200 (0 = manager)
+    # Each range test touches the id only through comparisons with integer constants, so evaluating it on the grid of all
+    # constants +-1 decides its equivalence with the table (the non-numeric conjuncts - "not the core file", "core definitions
+    # imported" - are taken as true: the case of a user file).  A vacuous test (`0 > id > MAX`) is found here.
+    B = chk.rule("C12-B", "the range test of each id kind refuses exactly the ids outside the permitted range", 3,
+                 "a range test that can never fire (or fires one off) lets an id outside its range compile")
+    PERMITTED = {
+        "message_ids": ("0 .. MAX_MESSAGE_TYPES", lambda v, K: 0 <= v <= K["MAX_MESSAGE_TYPES"]),
+        "host_ids": ("1 .. 32767", lambda v, K: 1 <= v <= 32767),
+        "module_ids": ("10 .. 99 or >= 200 (0: the manager itself)", lambda v, K: v == 0 or 10 <= v <= 99 or v >= 200),
+    }
+    from .mgr import const_resolver as _cres
+
+    pres0 = _cres(prog, m)
+    core_consts = prog.module_constants("pyrtma.core_defs")
+
+    def pres(e_):
+        r_ = pres0(e_)
+        if not isinstance(r_, int) and isinstance(e_, ast.Name) and isinstance(core_consts.get(e_.id), int):
+            return core_consts[e_.id]  # `from .core_defs import MAX_MESSAGE_TYPES` (inside a try block in the parser)
+        return r_
+
+    Kc = {"MAX_MESSAGE_TYPES": pres(ast.parse("MAX_MESSAGE_TYPES", mode="eval").body)}
+    if not isinstance(Kc["MAX_MESSAGE_TYPES"], int):
+        raise AnalysisError("anchor vanished: MAX_MESSAGE_TYPES is not a resolvable integer constant of the parser")
+
+    class _Opaque(Exception):
+        pass
+
+    def ev_range(e, val, vname, cm_):
+        if isinstance(e, ast.Constant) and isinstance(e.value, (int, bool)) and not isinstance(e.value, str):
+            return e.value
+        if isinstance(e, ast.Name) and e.id == vname:
+            return val
+        if isinstance(e, ast.Name) and e.id in cm_:
+            return ev_range(cm_[e.id], val, vname, cm_)
+        if isinstance(e, (ast.Name, ast.Attribute)):
+            r_ = pres(e)
+            if isinstance(r_, int):
+                return r_
+            raise _Opaque
+        if isinstance(e, ast.UnaryOp) and isinstance(e.op, ast.Not):
+            try:
+                return not ev_range(e.operand, val, vname, cm_)
+            except _Opaque:
+                raise
+        if isinstance(e, ast.UnaryOp) and isinstance(e.op, ast.USub):
+            return -ev_range(e.operand, val, vname, cm_)
+        if isinstance(e, ast.BinOp) and isinstance(e.op, (ast.Add, ast.Sub)):
+            a_, b_ = ev_range(e.left, val, vname, cm_), ev_range(e.right, val, vname, cm_)
+            return a_ + b_ if isinstance(e.op, ast.Add) else a_ - b_
+        if isinstance(e, ast.BoolOp):
+            vals = []
+            for x_ in e.values:
+                try:
+                    vals.append(bool(ev_range(x_, val, vname, cm_)))
+                except _Opaque:
+                    vals.append(True if isinstance(e.op, ast.And) else False)  # a non-numeric conjunct holds / disjunct does not (user file)
+            return all(vals) if isinstance(e.op, ast.And) else any(vals)
+        if isinstance(e, ast.Compare):
+            left = ev_range(e.left, val, vname, cm_)
+            for op_, c_ in zip(e.ops, e.comparators):
+                r_ = ev_range(c_, val, vname, cm_)
+                ok_ = {ast.Lt: left < r_, ast.LtE: left <= r_, ast.Gt: left > r_, ast.GtE: left >= r_, ast.Eq: left == r_, ast.NotEq: left != r_}.get(type(op_))
+                if ok_ is None:
+                    raise _Opaque
+                if not ok_:
+                    return False
+                left = r_
+            return True
+        raise _Opaque
+
+    nB = 0
+    for table_, (text_, allowed_) in PERMITTED.items():
+        # the function holding the range test for this registry: the storing handler, or the message id validator
+        holders = []
+        for f_ in par.methods.values():
+            for p_ in [p for p in f_.params() if p != "self"]:
+                sh_ = validator_shape(f_, table_, ID_TABLES[table_], p_)
+                if sh_["range"] is not None:
+                    stores_here = any(True for _ in table_stores(sh_["cfg"], table_))
+                    holders.append((0 if (sh_["loop"] is not None or sh_["pass_edges"]) else (1 if stores_here or f_ is vmi else 2), f_, p_, sh_))
+        holders = [h_ for h_ in holders if h_[0] < 2]
+        if not holders:
+            chk.defer_error(f"C12-B: no range test found for {table_}")
+            continue
+        _, f_, p_, sh_ = sorted(holders, key=lambda h_: h_[0])[0]
+        cm_ = guards.copy_map(f_.node)
+        # conditions on the way to the raise: the range `if` and the `if`s nested in it that enclose the raise
+        rtest = sh_["range"]
+        raises_ = [s_ for s_ in walk_local(rtest) if isinstance(s_, ast.Raise) and "RTMASyntaxError" in norm(s_)]
+        conds = [rtest.test]
+        for a_ in ancestors(raises_[0]):
+            if a_ is rtest:
+                break
+            if isinstance(a_, ast.If) and any(x_ is raises_[0] for b_ in a_.body for x_ in ast.walk(b_)):
+                conds.append(a_.test)
+        grid = sorted({c_ + d_ for c_ in (0, 1, 10, 99, 100, 199, 200, 32767, 65535, Kc["MAX_MESSAGE_TYPES"], -2147483648, 2147483647) for d_ in (-1, 0, 1)})
+        witness = None
+        try:
+            for v_ in grid:
+                refused = all(bool(ev_range(c_, v_, p_, cm_)) for c_ in conds)
+                if refused == allowed_(v_, Kc) and witness is None:
+                    witness = (v_, refused)
+        except _Opaque:
+            witness = ("?", None)
+        nB += 1
+        B.decide(witness is None, fkey(f_, f"range:{table_}"), where(f_, rtest), f"refuses exactly the ids outside {text_}",
+                 f"{f_.qual}: the range test `{norm(rtest.test)[:80]}` " + ("could not be evaluated over the integers" if witness and witness[0] == "?" else
+                 (f"{'refuses' if witness[1] else 'accepts'} id {witness[0]}" if witness else "")) + f"; permitted: {text_}")
+
     # ---- R reserved ranges -------------------------------------------------------------------------------------------
     R = chk.rule("C12-R", "reserved ranges expand with inclusive end and every reserved id is registered through handle_signal", 3,
                  "an exclusive end leaves the last reserved id free; an unregistered id escapes conflict detection")
